@@ -4,6 +4,7 @@ import (
 	"fmt"
 	"go/token"
 	"go/types"
+	"strings"
 
 	"golang.org/x/tools/go/ssa"
 )
@@ -18,11 +19,27 @@ const chIdxSort = "(Array Int (_ BitVec 64))"
 
 func (vc *VC) chGet(name, sort string) string { return vc.heapGet(name, sort) }
 
-func (vc *VC) chTail(ch string) string { return sel(vc.chGet("CH:tail", chIdxSort), ch) }
-func (vc *VC) chHead(ch string) string { return sel(vc.chGet("CH:head", chIdxSort), ch) }
-func (vc *VC) chCap(ch string) string  { return sel(vc.chGet("CH:cap", chIdxSort), ch) }
+// The ghost arrays are kept per element type: channels of different element types
+// are different objects and never alias.
+func (vc *VC) chKey(base string) string {
+	if vc.chET == nil {
+		return base
+	}
+	return base + ":" + typeKey(vc.chET)
+}
+func (vc *VC) chTail(ch string) string { return sel(vc.chGet(vc.chKey("CH:tail"), chIdxSort), ch) }
+func (vc *VC) chHead(ch string) string { return sel(vc.chGet(vc.chKey("CH:head"), chIdxSort), ch) }
+func (vc *VC) chCap(ch string) string  { return sel(vc.chGet(vc.chKey("CH:cap"), chIdxSort), ch) }
 func (vc *VC) chClosed(ch string) string {
-	return sel(vc.chGet("CH:closed", "(Array Int Bool)"), ch)
+	return sel(vc.chGet(vc.chKey("CH:closed"), "(Array Int Bool)"), ch)
+}
+
+// withElem runs f with the channel element type that selects the ghost arrays.
+func (vc *VC) withElem(et types.Type, f func()) {
+	saved := vc.chET
+	vc.chET = et
+	defer func() { vc.chET = saved }()
+	f()
 }
 
 func (vc *VC) chQName(et types.Type, j int) (string, string) {
@@ -43,13 +60,31 @@ func (vc *VC) chAt(et types.Type, ch, pos string) SV {
 }
 
 func (vc *VC) chSet(name, sort, ch, v string) {
+	if !strings.HasPrefix(name, "CH:q:") {
+		name = vc.chKey(name)
+	}
 	h := vc.chGet(name, sort)
 	vc.heapSet(name, sort, sto(h, ch, v))
 }
 
 func chanElem(t types.Type) types.Type { return t.Underlying().(*types.Chan).Elem() }
 
+// chanInvFor finds the channel invariant declared for an element type.
+func (vc *VC) chanInvFor(et types.Type) *ChanInv {
+	tk := typeKey(et)
+	for _, cf := range vc.eng.cfiles {
+		for _, ci := range cf.ChanInvs {
+			fn := vc.eng.gcFunc(ci.Pkg, ci.GoName)
+			if fn != nil && len(fn.Params) == 1 && typeKey(fn.Params[0].Type()) == tk {
+				return ci
+			}
+		}
+	}
+	return nil
+}
+
 func (vc *VC) chanInitImpl(ref string, x *ssa.MakeChan, fr *Frame) {
+	vc.chET = chanElem(x.Type())
 	zero := bvLitI(0, 64)
 	vc.chSet("CH:tail", chIdxSort, ref, zero)
 	vc.chSet("CH:head", chIdxSort, ref, zero)
@@ -60,6 +95,7 @@ func (vc *VC) chanInitImpl(ref string, x *ssa.MakeChan, fr *Frame) {
 
 // chanSendCond appends v to the queue of ch when cond holds.
 func (vc *VC) chanSendCond(et types.Type, ch string, v SV, cond string) {
+	vc.chET = et
 	tail := vc.def(bvSort(64), vc.chTail(ch))
 	ls := vc.eng.layoutOf(et).L
 	for j := range ls {
@@ -73,14 +109,19 @@ func (vc *VC) chanSendCond(et types.Type, ch string, v SV, cond string) {
 
 func (e *Engine) chanSend(vc *VC, fr *Frame, chv ssa.Value, v SV, blocking bool, pos token.Pos) {
 	ch := vc.val(fr, chv).L[0]
+	vc.chET = chanElem(chv.Type())
 	vc.oblige("chan:send-on-closed", []string{"C08", "C15"}, not(vc.chClosed(ch)))
 	vc.oblige("chan:send-on-nil", []string{"C08"}, not(eq(ch, "0")))
+	if ci := vc.chanInvFor(chanElem(chv.Type())); ci != nil {
+		vc.oblige("chaninv:send", []string{"C08"}, vc.evalClause(ci.GoName, ci.Pkg, []SV{v}, vc.st, vc.entry))
+	}
 	vc.chanSendCond(chanElem(chv.Type()), ch, v, "true")
 	vc.noteAssumption("blocking channel operations are assumed to complete (liveness is not verified)")
 }
 
 // chanRecvCond takes the element at head when cond holds; returns value and ok.
 func (vc *VC) chanRecvCond(et types.Type, ch string, cond string) (SV, string) {
+	vc.chET = et
 	head := vc.def(bvSort(64), vc.chHead(ch))
 	tail := vc.def(bvSort(64), vc.chTail(ch))
 	avail := vc.def("Bool", "(bvslt "+head+" "+tail+")")
@@ -94,6 +135,13 @@ func (vc *VC) chanRecvCond(et types.Type, ch string, cond string) (SV, string) {
 		out.L = append(out.L, vc.def(ls[j].Sort, ite(avail, at.L[j], zero.L[j])))
 	}
 	vc.typeFacts(et, out)
+	if ci := vc.chanInvFor(et); ci != nil {
+		vc.assume(implies(and(cond, avail), vc.evalClause(ci.GoName, ci.Pkg, []SV{out}, vc.st, vc.entry)))
+		if ci.Open {
+			// such channels are never closed behind the receiver's back: an element is available
+			vc.assume(implies(cond, or(avail, vc.chClosed(ch))))
+		}
+	}
 	vc.chSet("CH:head", chIdxSort, ch, ite(and(cond, avail), "(bvadd "+head+" (_ bv1 64))", head))
 	return out, avail
 }
@@ -107,6 +155,7 @@ func (e *Engine) chanRecv(vc *VC, fr *Frame, chv ssa.Value, commaOk bool, pos to
 	vc.havocChan(Loc{Space: 'C', TK: tk, Ref: ch})
 	out, ok := vc.chanRecvCond(et, ch, "true")
 	// ghost: this goroutine has completed a receive on the channel
+	vc.chET = et
 	vc.chSet("CH:awaited", "(Array Int Bool)", ch, "true")
 	if commaOk {
 		out.L = append(out.L, ok)
@@ -115,7 +164,8 @@ func (e *Engine) chanRecv(vc *VC, fr *Frame, chv ssa.Value, commaOk bool, pos to
 	return out
 }
 
-func (vc *VC) chanCloseImpl(ch string) {
+func (vc *VC) chanCloseImpl(ch string, et types.Type) {
+	vc.chET = et
 	vc.oblige("chan:close-of-closed", []string{"C08", "C15"}, not(vc.chClosed(ch)))
 	vc.oblige("chan:close-of-nil", []string{"C08"}, not(eq(ch, "0")))
 	vc.chSet("CH:closed", "(Array Int Bool)", ch, "true")
@@ -147,6 +197,7 @@ func (e *Engine) selectStmt(vc *VC, fr *Frame, x *ssa.Select) SV {
 	for k, s := range x.States {
 		ch := vc.val(fr, s.Chan).L[0]
 		et := chanElem(s.Chan.Type())
+		vc.chET = et
 		chosen := vc.def("Bool", eq(idx, bvLitI(int64(k), 64)))
 		if s.Dir == types.SendOnly {
 			full := "(bvsge (bvsub " + vc.chTail(ch) + " " + vc.chHead(ch) + ") " + vc.chCap(ch) + ")"
@@ -158,6 +209,12 @@ func (e *Engine) selectStmt(vc *VC, fr *Frame, x *ssa.Select) SV {
 			vc.oblige("chan:send-on-closed", []string{"C08", "C15"}, not(vc.chClosed(ch)))
 			vc.st.Cond = saved
 			vc.assume(implies(chosen, not(full)))
+			if ci := vc.chanInvFor(et); ci != nil {
+				saved := vc.st.Cond
+				vc.st.Cond = vc.def("Bool", and(saved, chosen))
+				vc.oblige("chaninv:send", []string{"C08"}, vc.evalClause(ci.GoName, ci.Pkg, []SV{vc.val(fr, s.Send)}, vc.st, vc.entry))
+				vc.st.Cond = saved
+			}
 			vc.chanSendCond(et, ch, vc.val(fr, s.Send), chosen)
 		} else {
 			avail := "(bvslt " + vc.chHead(ch) + " " + vc.chTail(ch) + ")"
@@ -183,11 +240,19 @@ func (e *Engine) selectStmt(vc *VC, fr *Frame, x *ssa.Select) SV {
 // a closed channel stays closed.
 func (vc *VC) havocChan(l Loc) {
 	ch := l.Ref
+	if et, ok := vc.eng.tkTypes[l.TK]; ok {
+		vc.chET = et
+	}
 	ot, oh := vc.def(bvSort(64), vc.chTail(ch)), vc.def(bvSort(64), vc.chHead(ch))
 	oc := vc.def("Bool", vc.chClosed(ch))
 	nt, nh := vc.fresh(bvSort(64), "chtail"), vc.fresh(bvSort(64), "chhead")
 	nc := vc.fresh("Bool", "chclosed")
 	vc.assume(and("(bvsle "+ot+" "+nt+")", "(bvsle "+oh+" "+nh+")", "(bvsle "+nh+" "+nt+")", implies(oc, nc)))
+	if et, ok := vc.eng.tkTypes[l.TK]; ok {
+		if ci := vc.chanInvFor(et); ci != nil && ci.Open {
+			vc.assume(eq(nc, oc))
+		}
+	}
 	vc.chSet("CH:tail", chIdxSort, ch, nt)
 	vc.chSet("CH:head", chIdxSort, ch, nh)
 	vc.chSet("CH:closed", "(Array Int Bool)", ch, nc)
